@@ -1,16 +1,16 @@
 SPECIFICATION Spec
 CONSTANTS
-    IdOrder <- MCIds4
+    IdOrder <- MCIds3
     ValOrder <- MCVals
-    Payloads = {1, 2}
+    Payloads = {1}
     SegOrder <- MCSegs
     GlobTable <- MCGlob
-    Grid <- MCGrid
-    TxGrid <- MCTxGridTiny
+    Grid <- MCGridSmall
+    TxGrid <- MCTxGrid
     JoinCollapse = FALSE
     NoLimitRaw = FALSE
     Faults = TRUE
-    MaxTxOps = 1
+    MaxTxOps = 2
 INVARIANTS
     TypeOK
     GetIsLast
